@@ -183,8 +183,71 @@ func genHealthOps(repo string) (string, error) {
 		}
 		fmt.Fprintf(&b, "Definition %s : shape := %s.\n", it.def, shape)
 	}
+	// every write of a flag word in package cluster must be one of the atomic updates inside SetHealthFlag /
+	// ClearHealthFlag: no other sync/atomic write on `healthFlags` or on a word obtained from GetHealthFlagPointer
+	writers, werr := healthWordWriters(repo)
+	if werr != nil {
+		return "", werr
+	}
+	if len(writers) > 0 {
+		ok = false
+		fmt.Fprintf(&b, "(* flag word written outside SetHealthFlag/ClearHealthFlag: %s *)\n", strings.Join(writers, ", "))
+	}
+	fmt.Fprintf(&b, "Definition health_word_written_only_by_set_clear := %v.\n", len(writers) == 0)
 	fmt.Fprintf(&b, "Definition HealthOps_translator_ok := %v.\n", ok)
 	return b.String(), nil
+}
+
+// healthWordWriters lists sync/atomic write calls (Store/Swap/Add/CompareAndSwap/Or/And on uint64) in package cluster
+// that target a health flag word and are not inside SetHealthFlag / ClearHealthFlag.
+func healthWordWriters(repo string) ([]string, error) {
+	dir := filepath.Join(repo, "pkg/upstream/cluster")
+	fset := token.NewFileSet()
+	pkgs, err := parser.ParseDir(fset, dir, func(fi os.FileInfo) bool {
+		n := fi.Name()
+		return !strings.HasSuffix(n, "_test.go") && !strings.HasPrefix(n, "verif_hooks")
+	}, 0)
+	if err != nil {
+		return nil, err
+	}
+	var out []string
+	for _, pkg := range pkgs {
+		for fname, f := range pkg.Files {
+			for _, d := range f.Decls {
+				fd, ok := d.(*ast.FuncDecl)
+				if !ok || fd.Body == nil {
+					continue
+				}
+				if fd.Recv == nil && (fd.Name.Name == "SetHealthFlag" || fd.Name.Name == "ClearHealthFlag") {
+					continue
+				}
+				ast.Inspect(fd.Body, func(n ast.Node) bool {
+					c, ok := n.(*ast.CallExpr)
+					if !ok || len(c.Args) == 0 {
+						return true
+					}
+					sel, ok := c.Fun.(*ast.SelectorExpr)
+					if !ok || identName(sel.X) != "atomic" {
+						return true
+					}
+					switch sel.Sel.Name {
+					case "StoreUint64", "SwapUint64", "AddUint64", "CompareAndSwapUint64", "OrUint64", "AndUint64":
+					default:
+						return true
+					}
+					var sb strings.Builder
+					printer.Fprint(&sb, fset, c.Args[0])
+					arg := sb.String()
+					if strings.Contains(arg, "healthFlags") || strings.Contains(arg, "GetHealthFlagPointer") {
+						out = append(out, fmt.Sprintf("%s:%s %s(%s)", filepath.Base(fname), fd.Name.Name, sel.Sel.Name, arg))
+					}
+					return true
+				})
+			}
+		}
+	}
+	sort.Strings(out)
+	return out, nil
 }
 
 func isAtomicCall(e ast.Expr, name string) *ast.CallExpr {
